@@ -198,7 +198,7 @@ def run(run):
     run.rule = ('case = (identity: populated object ids with values, read code 1-4, start object id); the whole more-follows chain is followed; '
                 'distinct = (identity, code, start); non-trivial = chain of >= 2 pages or >= 2 objects returned')
     run.assumptions = ['spec codec parses every page independently of pymodbus', 'identities use byte strings or ASCII text (one byte per character)']
-    n = run.scale(1500, 60000)
+    n = run.scale(1500, 300000)
     for i in range(n):
         identity = gen_identity(r, allow_245=True)
         populated = [k for k, v in identity.items() if len(v)]
